@@ -285,6 +285,14 @@ def address_producers(P, R):
                         ok = rhs.get('callee') in ('strtol', 'strtoul', 'atoi') and any(x.get('k') == 'idx' and const_of(x['index']) == 2 for x in walk(rhs))
                     if ok and fld == 'remote_addr' and f.key in ann:
                         ok = s.ev.get('callee') == 'irc_pton' and any(x.get('k') == 'idx' and const_of(x['index']) == 1 for a in s.ev['args'] for x in walk(a))
+                        if not ok and s.ev['k'] == 'store' and is_var(s.ev.get('rhs')):
+                            # parsed into a local first (so that a failed parse can be refused), then stored as a whole
+                            lv_ = s.ev['rhs']['name']
+                            ok = any(t.ev.get('callee') == 'irc_pton' and t.ev['args'] and t.ev['args'][0].get('k') == 'un' and t.ev['args'][0].get('op') == '&' and is_var(t.ev['args'][0].get('e'), lv_)
+                                     and any(x.get('k') == 'idx' and const_of(x['index']) == 1 for a in t.ev['args'][1:] for x in walk(a)) for t in f.calls()) or \
+                                any(x.get('k') == 'callref' and x.get('callee') == 'irc_pton' and x.get('args') and x['args'][0].get('k') == 'un' and is_var(x['args'][0].get('e'), lv_)
+                                    and any(y.get('k') == 'idx' and const_of(y['index']) == 1 for a in x['args'][1:] for y in walk(a))
+                                    for b_ in f.blocks for x in walk(f.term_cond(b_) or {}))
                     n += 1
                     R.ob('C09.WMC.2', ok, s, 'the request\'s %s comes from the announce line (or the set-ip API)' % fld, key='%s-writer' % fld)
     R.floor('C09.WMC.2', 4)
@@ -472,6 +480,30 @@ def configured_member_words(P, R, rule='C09.FMT.3'):
     return n
 
 
+def announced_address_checked(P, R, rule='C09.GRD.4'):
+    """"The address in every message is the one the server announced": the core takes it from the announcement with the
+    address parser, which fails on a text that is not an address - leaving behind whatever it had written so far.  Every
+    call of the parser in the core looks at its verdict (the value is used), so that such an announcement is not
+    answered under an address nobody announced."""
+    unit = core.sender(P).unit
+    n = 0
+    for f in P.unit_fns(unit):
+        used = set()
+        for t in f.sites():
+            for ex in rules.event_exprs(t.ev):
+                for x in walk(ex):
+                    if isinstance(x, dict) and x.get('k') == 'callref' and x.get('callee') == 'irc_pton':
+                        used.add(x.get('ev'))
+        for b_ in f.blocks:
+            for x in walk(f.term_cond(b_) or {}):
+                if isinstance(x, dict) and x.get('k') == 'callref' and x.get('callee') == 'irc_pton':
+                    used.add(x.get('ev'))
+        for s in f.calls('irc_pton'):
+            n += 1
+            R.ob(rule, s.ev.get('id') in used, s, '%s looks at the verdict of the address parser (%s)' % (f.name, sx(s.ev['args'][2]) if len(s.ev['args']) > 2 else ''), key='pton-verdict:%s' % f.name)
+    R.floor(rule, 2, 'calls of the address parser in the core')
+
+
 def word_parameters(P, R, rule='C09.FMT.3'):
     """A message whose parameter is a bare word ("U <name>", "N <host>", "M <modes>" - a `%s` not introduced by a colon)
     is only well formed when the word is there: the functions that send such a message with one of their own parameters
@@ -571,6 +603,7 @@ def run(P, R, tier):
     from .. import bnd as _bnd
     _bnd.check_scope(P, R, 'C09.BND.2', _bnd.reader_scope(P))
     word_parameters(P, R)
+    announced_address_checked(P, R)
     if not configured_member_words(P, R):
         raise AnalysisBroken('no request member sent as a word is filled from a configured text')
     # ... and the strlcpy those copies go through keeps its own promise
